@@ -93,7 +93,9 @@ def dependent_prior_case(col, rng):
     beta = lsl.param(np.float32(1.7), lsl.Dist(tfd.Normal, loc=0.0, scale=k), name="beta")
     free = lsl.Var(np.float32(0.4), lsl.Dist(tfd.Normal, loc=k, scale=1.5), name="free")  # neither observed nor parameter
     y = lsl.obs(rng.normal(size=3).astype(np.float32), lsl.Dist(tfd.Normal, loc=beta, scale=1.0), name="y")
-    model = lsl.GraphBuilder().add(y, free).build_model()
+    # ... and a residual res = 2.2 - k ~ N(0, 0.7): the variable enters that density only through the point of evaluation
+    res = lsl.Var(lsl.Calc(lambda kk: 2.2 - kk, k), lsl.Dist(tfd.Normal, loc=0.0, scale=0.7), name="res")
+    model = lsl.GraphBuilder().add(y, free, res).build_model()
     kernel = finite_discrete_gibbs_kernel("k", model)
     iface = gs.LieselInterface(model)
     state = iface.update_state({"beta": jnp.float32(-0.9), "free": jnp.float32(1.1), "k": jnp.float32(0.25)}, model.state)
@@ -111,7 +113,7 @@ def dependent_prior_case(col, rng):
         draws = [float(kernel._transition_fn(kk, state)["k"]) for kk in keys]
     finally:
         jax.random.categorical = orig
-    inp = {"outcomes": values, "discrete_variable_feeds": ["prior of parameter beta", "distribution of unflagged variable free"]}
+    inp = {"outcomes": values, "discrete_variable_feeds": ["prior of parameter beta", "distribution of unflagged variable free", "evaluation point of the density of the residual res = 2.2 - k"]}
     if seen:
         lg = seen[0]
         if lg.shape != (3,) or not np.allclose(lg - lg[0], joint - joint[0], atol=1e-3):
@@ -120,6 +122,33 @@ def dependent_prior_case(col, rng):
             return
     want = [values[int(orig(kk, jnp.asarray(joint, jnp.float32)))] for kk in keys]
     col.add(None if draws == want else {"sig": "native::gibbs::finite_discrete_dependent_prior", "what": f"draws {draws} differ from outcomes[categorical(key, joint log-densities)] = {want}", "input": inp})
+
+
+def tiny_scale_case(col, rng):
+    """a full conditional with real mass far below float32 eps (b = 2e-8, beta in the null space of the penalty): the draw for a fixed key is
+    still b*/gamma(key, a*) - no floor or cap on the drawn variance"""
+    n, p = 12, 5
+    b = DistRegBuilder()
+    b.add_response(rng.normal(size=n).astype(np.float32), tfd.Normal)
+    b.add_predictor("loc", tfb.Identity)
+    b.add_predictor("scale", tfb.Exp)
+    D = np.diff(np.eye(p), n=2, axis=0)
+    K = (D.T @ D).astype(np.float32)
+    b.add_np_smooth(rng.normal(size=(n, p)).astype(np.float32), K, a=1.0, b=2e-8, predictor="loc", name="f")
+    model = b.build_model()
+    kernel = tau2_gibbs_kernel(model.groups()["f"])
+    model.vars["f_beta"].value = jnp.asarray(np.arange(p) * 0.5, jnp.float32)  # linear: in the null space of the second-difference penalty
+    state = model.state
+    bad = None
+    for _ in range(6):
+        key = jax.random.PRNGKey(int(rng.integers(0, 2**31)))
+        draw = float(kernel._transition_fn(key, state)["f_tau2"])
+        a_star, b_star = 1.0 + np.linalg.matrix_rank(K) / 2, 2e-8
+        want = b_star / float(jax.random.gamma(key, jnp.float32(a_star)))
+        if not np.isclose(draw, want, rtol=5e-3):
+            bad = f"draw {draw!r} but b*/gamma(key, a*) with a* = {a_star}, b* = {b_star} gives {want!r}"
+            break
+    col.add(None if bad is None else {"sig": "native::gibbs::tau2_tiny_scale", "what": bad, "input": {"b": 2e-8, "beta": "linear (null space of the penalty)"}})
 
 
 def wrapper_case(col, rng):
@@ -217,6 +246,11 @@ def bounded(tier, seed):
             discrete_case(col, rng)
         except Exception as e:
             col.add({"sig": f"native::gibbs::exception::{type(e).__name__}", "what": str(e)[:200], "input": {"kernel": "finite_discrete"}})
+        n += 1
+        try:
+            tiny_scale_case(col, rng)
+        except Exception as e:
+            col.add({"sig": f"native::gibbs::exception::{type(e).__name__}", "what": str(e)[:200], "input": {"scenario": "tiny inverse-gamma scale"}})
         n += 1
         try:
             wrapper_case(col, rng)
